@@ -215,7 +215,11 @@ def sweep_check(case):
             base = np.asarray(spec["kw"][name], dtype=float)
             if name in VEC_PARAMS and base.ndim == 0 and cls in ("Advection", "Diffusion", "AdvectionDiffusion", "Dispersion"):
                 base = np.ones(D) * base  # documented vector form
-        vals = np.stack([base * f for f in facs])
+        if np.max(np.abs(base)) < 1e-6:
+            # a zero base value (e.g. drag = 0): sweep additive values instead of factors
+            vals = np.stack([base + a_ for a_ in (0.0, 0.13 * f1, -0.27 * f2)])
+        else:
+            vals = np.stack([base * f for f in facs])
         swept_distinct = bool(np.max(np.abs(vals[1] - vals[0])) > 0 or np.max(np.abs(vals[2] - vals[0])) > 0)
 
         def make(v):
